@@ -279,10 +279,15 @@ def run(ck, facts, tier):
             ck.fail(r6, "from[%s]" % var, "rule could not be established (%s)" % e, "%s:%d" % (rr["file"], rr["line"]))
     # supply order also reaches the variable tags of a curve built with derivatives: nodes are sorted before they are enumerated (C12 R12.2)
     from rules import c12
-    with ck.restrict({"R12.2"}):
-        nd_, tb_ = list(ck.not_decided), list(ck.trusted)
-        c12.run(ck, facts, tier)
-        ck.not_decided[:], ck.trusted[:] = nd_, tb_
+    if not getattr(ck, "_c11_c12_nested", False):          # C12 includes R11.4 of this module in turn
+        ck._c11_c12_nested = True
+        try:
+            with ck.restrict({"R12.2"}):
+                nd_, tb_ = list(ck.not_decided), list(ck.trusted)
+                c12.run(ck, facts, tier)
+                ck.not_decided[:], ck.trusted[:] = nd_, tb_
+        finally:
+            ck._c11_c12_nested = False
     from rules import pywrap
     pywrap.run_curve_wrappers(ck, facts)          # what a Python user calls is the wrapper: it must hand its arguments to the core method unchanged
     ck.not_decided += ["index_left is decided as conformance to the bisection recurrence; that the recurrence meets the interval specification is an induction argument stated in the rule, not mechanised",
